@@ -974,6 +974,87 @@ def c_reference_name_oracle(ctx, u, c, lang, out, all_types, flags):
                  replay_blob(u, c, {"colliding_types": [str(a), str(b)], "c_name": name, "probe_member": member[:1], "diagnostic": diag}))
 
 
+HISTORY = common.VERIF / "corpus" / "C06_history"
+
+
+def run_histories(ctx, flags):
+    """Round 2 (wave 7): state carried between runs through the output directory.  Run 1 generates root `first` with option set A,
+    run 2 generates root `second` into the SAME directory with option set B, in the default mode and with --no-overwrite.  The
+    property on the implementation: every run that reports success leaves headers (the ones it produced) that build on their own;
+    and the support header in the tree is the one of the options of the last successful run (compared with a fresh directory).
+    A run that refuses (non-zero exit) is fine."""
+    c_sets = {"default": [], "little": ["--target-endianness", "little"], "asserts": ["--enable-serialization-asserts"],
+              "nofloat": ["--omit-float-serialization-support"], "ovr": ["--enable-override-variable-array-capacity"]}
+    hist = []
+    for a, b in [("default", "little"), ("default", "asserts"), ("little", "default"), ("default", "nofloat"), ("default", "default")] + \
+                ([] if ctx.quick else [("asserts", "ovr"), ("nofloat", "little"), ("little", "little")]):
+        for mode in ("no-overwrite", "overwrite"):
+            hist.append(("c", None, c_sets[a], None, c_sets[b], f"c/{a}->{b}/{mode}", mode))
+    for (sa, a), (sb, b) in [(("c++17", "default"), ("c++17", "little")), (("c++14", "default"), ("c++17", "default")),
+                             (("c++17", "default"), ("c++17-pmr", "default")), (("c++17", "default"), ("c++17", "default"))] + \
+                            ([] if ctx.quick else [(("c++20", "asserts"), ("c++20", "default")), (("c++17-pmr", "default"), ("c++14", "little"))]):
+        for mode in ("no-overwrite", "overwrite"):
+            hist.append(("cpp", sa, c_sets[a], sb, c_sets[b], f"cpp/{sa}+{a}->{sb}+{b}/{mode}", mode))
+    env = dict(os.environ, PYTHONPATH=str(common.REPO / "src"), PYTHONDONTWRITEBYTECODE="1")
+
+    def nnvg(target, std, args, out, root, extra=()):
+        cmd = [common.PY, "-m", "nunavut", "--target-language", target, "--experimental-languages"] + list(args) + list(extra)
+        if std:
+            cmd += ["--language-standard", std]
+        cmd += ["-O", str(out), str(HISTORY / root)]
+        try:
+            p = subprocess.run(cmd, env=env, capture_output=True, text=True, timeout=NNVG_TIMEOUT, cwd=str(ctx.scratch))
+        except subprocess.TimeoutExpired:
+            return 124, "timeout"
+        lines = [l for l in p.stderr.strip().splitlines() if l.strip()]
+        return p.returncode, (lines[-1] if lines else "")[:300]
+
+    def one(k_h):
+        k, (target, sa, aa, sb, ab, ident, mode) = k_h
+        base = ctx.scratch / "hist" / str(k)
+        out, fresh = base / "out", base / "fresh"
+        ext = ".h" if target == "c" else ".hpp"
+        r1 = nnvg(target, sa, aa, out, "first")
+        if r1[0] != 0:
+            return ident, "run1-failed", r1[1], []
+        r2 = nnvg(target, sb, ab, out, "second", ["--no-overwrite"] if mode == "no-overwrite" else [])
+        if r2[0] != 0:
+            return ident, "run2-refused", r2[1], []
+        rf = nnvg(target, sb, ab, fresh, "second")
+        bad = []
+        if rf[0] == 0:
+            sup = sorted(p.relative_to(fresh).as_posix() for p in (fresh / "nunavut").rglob("*" + ext)) if (fresh / "nunavut").exists() else []
+            for srel in sup:
+                if not (out / srel).exists() or (out / srel).read_text() != (fresh / srel).read_text():
+                    bad.append(("support-differs", srel, "the support header in the tree is not the one the options of the last successful run generate"))
+        for h in sorted(p.relative_to(out).as_posix() for p in (out / "second").rglob("*" + ext)):
+            if target == "c":
+                cmd = ["gcc", "-std=c11"] + flags["c"] + flags["gnu_extra"]
+            else:
+                cmd = ["g++", "-std=" + sb.replace("-pmr", "")] + flags["cxx"] + flags["gnu_extra"]
+            job, first, detail = run_compile((out, h, cmd, "c" if target == "c" else "c++", tuple(ab)))
+            if first is not None:
+                bad.append(("diagnostic", h, first.replace(str(out) + "/", "")))
+        return ident, "run2-succeeded", r2[1], bad
+
+    with cf.ThreadPoolExecutor(max_workers=8) as ex:
+        results = list(ex.map(one, enumerate(hist)))
+    for (target, sa, aa, sb, ab, ident, mode), (_, status, msg, bad) in zip(hist, results):
+        ctx.case(("history", ident), True)
+        ctx.count("history:" + status + ":" + mode)
+        if status == "run1-failed":
+            ctx.fail({"kind": "generation-error", "lang": target, "cause": "history-run1"}, f"history {ident}: the first run fails: {msg}",
+                     {"history": ident, "error": msg})
+        for kind, where, text in bad:
+            cause = "stale-support-header" if kind == "support-differs" or "static assertion failed" in text or "static_assert" in text \
+                else re.sub(r"\d+", "#", re.sub(r"[‘'`\"][^’'`\"]*[’'`\"]", "N", re.sub(r"^.*?(error|warning): ", "", text)))[:70]
+            ctx.fail({"kind": "history-tree-does-not-build", "cause": cause},
+                     f"history {ident}: run 2 reports success but {where}: {text}",
+                     {"history": ident, "target": target, "run1": {"std": sa, "args": aa, "root": "corpus/C06_history/first"},
+                      "run2": {"std": sb, "args": ab, "root": "corpus/C06_history/second", "mode": mode}, "where": where, "observed": text,
+                      "expected": "a run that reports success leaves headers that build on their own with the support header in the tree"})
+
+
 def regenerate_tables(ctx):
     """The generated tables Model/DepsOpts.lean reads (shared with C13 / C08 / C17): rewritten only when the tree changed."""
     import importlib.util
@@ -1384,6 +1465,8 @@ def run(ctx: common.Ctx):
     ctx.extra["diagnostics"] = ndiag
 
     phase("compile")
+    run_histories(ctx, flags)
+    phase("histories")
     # ---- oracle: Python ---------------------------------------------------------------------------------------------------
     def py_one(r):
         u, c, out = r
@@ -1463,6 +1546,15 @@ def lang_path(lang, t):
 def replay(ctx, path):
     r = json.loads(open(path).read())
     rp = r.get("replay", {})
+    if "history" in rp:
+        # the two-run history again
+        import types
+        fake = types.SimpleNamespace(quick=False, scratch=ctx.scratch, case=lambda *a, **k: None, count=lambda *a, **k: None, fails=[])
+        fake.fail = lambda key, what, replay: fake.fails.append((key, what)) if replay.get("history") == rp["history"] else None
+        run_histories(fake, read_flag_sets())
+        print(json.dumps({"history": rp["history"], "failures": [w for _, w in fake.fails][:3]}))
+        ctx.cleanup()
+        return 1 if fake.fails else 0
     if "dsdl" not in rp:
         print("nothing to replay (no failing input in the file)")
         return 1
